@@ -3,7 +3,7 @@ CONSTANTS
   MaxAddr = 8
   BitCounts = {1, 12, 17}
   RegCounts = {1, 3}
-  AddrsS = {0, 7, 9}
+  AddrsS = {0, 7, 9, 65534, 65535, 65520}
   WordVals = {0, 65535}
   Depth = 2
   Tampers = {"none", "resp-integrity", "unit", "resp-late"}
